@@ -934,17 +934,20 @@ class CallMixin:
             total = z3.If(total >= half, total - 2 ** (8 * size), total)
         return total
 
-    def write_int(self, val, size, signed, little):
-        """Bytes term for val in range (range obligation is the caller's)."""
-        B = prelude().Bytes
-        if signed:
-            val = z3.If(val < 0, val + 2 ** (8 * size), val)
-        items = []
-        for j in range(size):
+    def write_int(self, val, size, signed, little, st):
+        """Byte terms of val: fresh digits d_j with 0 <= d_j < 256 and sum d_j*256^pos == val mod 2^(8*size).
+        Total and unique (base-256 representation), hence a definition; two's complement for free."""
+        if size == 1:
+            return [val % 256]
+        digits = [z3.Int(fresh_name("dg")) for _ in range(size)]
+        total = None
+        for j, d in enumerate(digits):
             pos = (size - 1 - j) if not little else j
-            b = val / I(256 ** pos) if pos else val
-            items.append(b % 256)
-        return items
+            st.define(z3.And(0 <= d, d < 256))
+            term = d * (256 ** pos) if pos else d
+            total = term if total is None else total + term
+        st.define(total == val % (256 ** size))
+        return digits
 
     def struct_pack(self, fmt: str, vals, st, node) -> V:
         little, items = parse_struct_fmt(fmt)
@@ -969,7 +972,7 @@ class CallMixin:
             lo, hi = (-(2 ** (8 * size - 1)), 2 ** (8 * size - 1) - 1) if signed else (0, 2 ** (8 * size) - 1)
             self.may_raise(st, z3.Or(x < lo, x > hi), "struct.error", node, f"'{code}' format requires {lo} <= number <= {hi}")
             xb = self.bind(st, V(INT, x), "pk").z
-            out.extend(self.write_int(xb, size, signed, little))
+            out.extend(self.write_int(xb, size, signed, little, st))
         r = z3.Const(fresh_name("packed"), B.S)
         st.define(B.Len(r) == len(out))
         for j, b in enumerate(out):
